@@ -161,6 +161,7 @@ func runC02(c *ctx, cfg c02cfg, seed int64) rTrace {
 	}
 	rng := newRng(seed)
 	var names []string
+	lostWakeup := false
 	for step := 0; step < 3000; step++ {
 		if s.AllDone() {
 			break
@@ -194,6 +195,32 @@ func runC02(c *ctx, cfg c02cfg, seed int64) rTrace {
 		if len(cand) == 0 {
 			// nothing at a yield point: everything is parked/blocked/done. Workers parked with the pool not stopped
 			// is the normal idle state once the ticker is finished; cancelling is then the only way forward.
+			// One pattern is an observation of the real pool rather than a harness problem: the ticker, the canceller
+			// and the pool's stop goroutine have all finished (the stop flag is set and its broadcast was sent), yet
+			// workers are still parked in Cond.Wait - a lost wake-up: the pool can never complete. It is re-confirmed
+			// after a pause before it is believed.
+			lost := true
+			nparked := 0
+			for _, p := range s.Procs() {
+				switch {
+				case p.State == sched.Done:
+				case strings.HasPrefix(p.Name, "w") && p.State == sched.Parked:
+					nparked++
+				default:
+					lost = false
+				}
+			}
+			if sp := s.Proc("stopper"); sp == nil || sp.State != sched.Done {
+				lost = false
+			}
+			if lost && nparked > 0 {
+				time.Sleep(20 * time.Millisecond)
+				if err := s.Quiesce(); err == nil && len(s.Enabled()) == 0 {
+					add(rEv{K: "noreturn", S: fmt.Sprintf("%d worker(s) still parked in Cond.Wait after the stop goroutine finished: %s", nparked, strings.Join(s.Describe(), " "))})
+					lostWakeup = true
+					break
+				}
+			}
 			tr.Err = "deadlock: " + strings.Join(s.Describe(), " ")
 			break
 		}
@@ -222,7 +249,7 @@ func runC02(c *ctx, cfg c02cfg, seed int64) rTrace {
 		}
 		names = append(names, pick)
 	}
-	if tr.Err == "" && !s.AllDone() {
+	if tr.Err == "" && !s.AllDone() && !lostWakeup {
 		tr.Err = "schedule did not finish: " + strings.Join(s.Describe(), " ")
 	}
 	for _, p := range s.Procs() {
@@ -230,7 +257,7 @@ func runC02(c *ctx, cfg c02cfg, seed int64) rTrace {
 			tr.Workers = append(tr.Workers, p.Name)
 		}
 	}
-	if tr.Err == "" {
+	if tr.Err == "" && !lostWakeup {
 		select {
 		case <-pm.WaitForCompletion():
 		default:
